@@ -295,6 +295,64 @@ def oracle_conditional(rng):
     return None
 
 
+def oracle_directed(rng):
+    """directed scenarios: (1) the domain is part of the question: the same exponents first on R^n, then on a box; (2) nearly parallel
+    exponent rows (an invertible linear change of variables of rows that differ in one coordinate only); (3) kernel_basis=True on an
+    ill-scaled exponent matrix"""
+    import sageopt.coniclifts as cl
+    import sageopt as so
+    import sageopt.coniclifts.constraints.set_membership.sage_cones as sc
+    from sageopt.relaxations import sage_sigs as ss
+    saved = dict(sc.SETTINGS)
+    try:
+        with warnings.catch_warnings():
+            warnings.simplefilter('ignore')
+            # (1) exp(x + 2y): infimum 0 on R^2, e^3 on the box [1,2]^2; 2-term function e^{x} + e^{-x}... asked on R^n first
+            y = so.standard_sig_monomials(2)
+            for f, lo_box in ((y[0] * y[1] ** 2, math.e ** 3), (y[0] ** 2 * y[1] + 0.5 * y[0], math.e ** 3 + 0.5 * math.e)):
+                for form in ('primal', 'dual'):
+                    r0 = ss.sig_relaxation(f, None, form=form).solve(verbose=False)
+                    if r0[0] == 'solved' and math.isfinite(r0[1]) and r0[1] > 1e-4:
+                        return 'the %s bound of a posynomial with infimum 0 on R^2 is %r' % (form, r0[1])
+                X = ss.infer_domain(f, [y[0] - math.e, math.e ** 2 - y[0], y[1] - math.e, math.e ** 2 - y[1]], [])
+                for form in ('primal', 'dual'):
+                    r1 = ss.sig_relaxation(f, X, form=form).solve(verbose=False)
+                    if r1[0] != 'solved' or not close(r1[1], lo_box, 1e-4):
+                        return ('after the same function was relaxed over R^2, its %s bound over the box [1,2]^2 is %r; the minimum over the box is '
+                                '%r and SAGE is exact for posynomials' % (form, r1, lo_box))
+            # (2) invariance under an invertible linear map that makes the rows nearly parallel
+            rows = np.array([[0.0, 1.0], [4e-6, 1.0], [8e-6, 1.0], [0.0, 0.0]])
+            cc = np.array([1.0, -1.5, 1.0, 0.1])
+            T = np.array([[1.0, 0.0], [1.0, 1.0]])
+            f0 = so.Signomial(rows, cc)
+            f1 = so.Signomial(rows @ T, cc)
+            for form in ('primal', 'dual'):
+                a, b = ss.sig_relaxation(f0, form=form).solve(verbose=False), ss.sig_relaxation(f1, form=form).solve(verbose=False)
+                if a[0] == b[0] == 'solved' and not (a[1] == b[1] or close(a[1], b[1], 1e-3)):
+                    return ('the %s bound of the signomial with exponent rows %s changes from %r to %r under the invertible linear change of '
+                            'variables alpha -> alpha @ %s' % (form, rows.tolist(), a[1], b[1], T.tolist()))
+            # (3) kernel_basis=True, exponents (30, 0) and (-30, 2e-5): the bound of a posynomial with infimum 0 stays 0
+            fk = so.Signomial(np.array([[0.0, 0.0], [30.0, 0.0], [-30.0, 2e-5]]), np.array([-2.0, 1.0, 1.0]))
+            vals = {}
+            for kb in (False, True):
+                cl.kernel_basis_age_witnesses(kb)
+                try:
+                    vals[kb] = ss.sig_relaxation(fk, form='primal').solve(verbose=False)
+                except RuntimeError:
+                    vals[kb] = ('solved', -math.inf)
+            sc.SETTINGS.update(saved)
+            a, b = vals[False], vals[True]
+            if a[0] == b[0] == 'solved' and (math.isfinite(a[1]) != math.isfinite(b[1]) or (math.isfinite(a[1]) and not close(a[1], b[1], 1e-3))):
+                return ('primal bound of -2 + exp(30 x0) + exp(-30 x0 + 2e-5 x1) is %r with kernel_basis=False and %r with kernel_basis=True'
+                        % (a[1], b[1]))
+            if b[0] == 'solved' and math.isfinite(b[1]) and b[1] > -2.0 + 1e-3:
+                return 'primal bound %r of -2 + exp(30 x0) + exp(-30 x0 + 2e-5 x1) with kernel_basis=True exceeds the infimum -2' % b[1]
+    finally:
+        sc.SETTINGS.clear()
+        sc.SETTINGS.update(saved)
+    return None
+
+
 HEADER = ('From Coq Require Import List Bool Arith ZArith QArith.\n'
           'From SageVerif Require Import Model.Expr Model.Sage Model.Covers Base.Corr.\nImport ListNotations.\n'
           'Definition model (x : list (list Q) * list sexpr * bool * bool) :=\n'
@@ -352,7 +410,7 @@ def covers_suite(ctx):
 
 def run(ctx):
     covers_suite(ctx)
-    for name, f, reps in (('circuit', oracle_circuit, ctx.n(4, 30)), ('one_negative_box', oracle_one_negative_box, ctx.n(6, 60)),
+    for name, f, reps in (('directed', oracle_directed, 1), ('circuit', oracle_circuit, ctx.n(4, 30)), ('one_negative_box', oracle_one_negative_box, ctx.n(6, 60)),
                           ('conditional', oracle_conditional, ctx.n(40, 300))):
         for _ in range(reps):
             why = f(ctx.rng)
